@@ -144,8 +144,8 @@ def short_hand(rec, upto=None):
     return {'spec': rec['spec'], 'calls': calls}
 
 
-def validate(run: Run, recs, name: str, prop: str, jobs=16, timeout=3000):
-    res = tlc.validate_traces(recs, name, prop=prop, jobs=jobs, timeout=timeout)
+def validate(run: Run, recs, name: str, prop: str, jobs=16, timeout=3000, env=None):
+    res = tlc.validate_traces(recs, name, prop=prop, jobs=jobs, timeout=timeout, env=env)
     run.add_tlc(res['states'], res['transitions'])
     run.traces += len(recs)
     steps = sum(len(r['steps']) for r in recs)
@@ -185,7 +185,7 @@ def replay_record(rp: dict, level=1):
         pk.Tracer.active = None
     rec = {'tid': 1, 'spec': spec, 'deck0': pk.Shuffles.last_deck, 'steps': []}
     rec['cfg'] = pk.project_cfg(st, werr=werr, rake=spec.get('rake'),
-                                extra={'deckcards': sorted(pk.card_int(c) for c in st.deck), 'variant': spec['variant']})
+                                extra={'deckcards': sorted(pk.card_int(c) for c in st.deck), 'variant': spec['variant'], 'sb': spec.get('sb', 0), 'bb': spec.get('bb', 0), 'deck': games.deck_name(st.deck)})
     rec['create'] = {'out': 'ok', 'post': play.observe(st, 0), 'micro': mic}
     for call in rp['calls']:
         probes, psame = play.probes(st, walk.probe_universe(st, rng, level), werr)
